@@ -12,6 +12,7 @@ import (
 	"sort"
 	"strings"
 	"sync"
+	"sync/atomic"
 	"time"
 
 	"github.com/attestantio/go-block-relay/services/blockauctioneer"
@@ -158,6 +159,8 @@ func eligible(b *harness.BidSpec, rs relaySpec, cfgs map[int]builderCfg) bool {
 
 var caseNo int64
 var caseMu sync.Mutex
+
+var judgedCases, stalledCases atomic.Int64
 
 type strategySvc interface {
 	BuilderBid(ctx context.Context, slot phase0.Slot, parentHash phase0.Hash32, pubkey phase0.BLSPubKey, proposerConfig *beaconblockproposer.ProposerConfig,
@@ -339,7 +342,20 @@ func runCase(c *harness.Ctx, id string, ac *acase, uniq int) {
 		}
 	}
 	detail := map[string]any{"case": ac, "served": servedDesc, "took_ms": took.Milliseconds(), "error": fmt.Sprint(o.err)}
-	fail := func(key, what string) { c.Violate(key+":"+ac.Strategy, what, id, detail) }
+	// was the process starved of CPU while the auction ran? then measured times say nothing about the strategy
+	stalled := harness.MaxStallSince(now) > 60*time.Millisecond
+	judgedCases.Add(1)
+	if stalled {
+		stalledCases.Add(1)
+		c.Count("cases_with_timing_verdicts_skipped_process_stalled", 1)
+	}
+	timing := map[string]bool{"eligible-bid-but-no-winner": true, "not-the-best-bid": true, "auction-late": true, "ineligible-bid-won:late": true}
+	fail := func(key, what string) {
+		if stalled && timing[key] {
+			return
+		}
+		c.Violate(key+":"+ac.Strategy, what, id, detail)
+	}
 	if o.err != nil || o.res == nil {
 		fail("auction-error", "auction returned an error instead of a result: "+fmt.Sprint(o.err))
 		return
@@ -570,6 +586,7 @@ func concurrentServe(c *harness.Ctx, id string, r *rand.Rand, uniq int) {
 
 func run(c *harness.Ctx) {
 	harness.InitBLS()
+	harness.StartStallMonitor()
 	for i := 0; i < 8; i++ { // key generation is slow: do it before any clock is started
 		harness.RelayPub(i)
 		harness.BuilderPub(i)
@@ -577,7 +594,7 @@ func run(c *harness.Ctx) {
 	harness.Keys.Key(5999)
 	n := c.N(900, 20000)
 	var wg sync.WaitGroup
-	sem := make(chan struct{}, 96)
+	sem := make(chan struct{}, 40)
 	for i := 0; i < n; i++ {
 		strategy := []string{"best", "deadline"}[i%2]
 		id := fmt.Sprintf("%s#%d", strategy, i)
@@ -634,6 +651,9 @@ func run(c *harness.Ctx) {
 		})
 	}
 	wg.Wait()
+	if j, st := judgedCases.Load(), stalledCases.Load(); j > 0 && st*3 > j {
+		c.Inconclusive(fmt.Sprintf("the process was starved of CPU in %d of %d auctions: their timing verdicts were skipped", st, j))
+	}
 }
 
 func main() {
